@@ -81,6 +81,11 @@ var (
 // (valid parameters: gas is free unless a sender offers a tip)
 var blockFixtureFreeGas bool
 
+// blockFixtureMinAbove: the next fixture is a chain whose global minimum gas price (5 gwei) is above its base fee (1 gwei)
+// in the first block — as after a governance increase of the minimum — and whose proposer has just been jailed (a jailed
+// validator still proposes the blocks it was scheduled for)
+var blockFixtureMinAbove bool
+
 func newBlockFixture(t *testing.T, maxGas int64) *blockFixture {
 	c := newChain(t)
 	f := &blockFixture{c: c, maxGas: maxGas, nonces: map[int]uint64{}, seqAtBegin: map[int]uint64{}, cosmosAdmitted: map[int]uint64{}}
@@ -146,6 +151,13 @@ func newBlockFixture(t *testing.T, maxGas int64) *blockFixture {
 		fp.MinGasPrice = sdkmath.LegacyZeroDec()
 		require.NoError(t, fk.SetParams(ctx, fp))
 	}
+	if blockFixtureMinAbove {
+		fk := c.s.ChainApp.FeeMarketKeeper()
+		fp := fk.GetParams(ctx)
+		fp.MinGasPrice = sdkmath.LegacyNewDec(5_000_000_000)
+		require.NoError(t, fk.SetParams(ctx, fp))
+		require.NoError(t, c.s.ChainApp.StakingKeeper().Jail(ctx, sdk.ConsAddress(ctx.BlockHeader().ProposerAddress)))
+	}
 	if maxGas != 0 {
 		app := c.s.ChainApp.IbcTestingApp().(*chainapp.Evermint)
 		cp, err := app.ConsensusParamsKeeper.ParamsStore.Get(ctx)
@@ -198,13 +210,19 @@ func TestEngineBlock(t *testing.T) {
 	maxGas := int64(hx.EnvInt("VERIF_MAXGAS", 3_000_000))
 	f := newBlockFixture(t, maxGas)
 	defer f.c.s.Cleanup()
-	runBlocks(t, f, rng, p, nTx-nTx/6)
+	runBlocks(t, f, rng, p, nTx-nTx/6-nTx/12)
 	// a second chain on which gas is free (base fee 0, minimum gas price 0): the effective price is the tip alone
 	blockFixtureFreeGas = true
 	f2 := newBlockFixture(t, 20*maxGas) // a gas target that the generated blocks stay below: the base fee stays 0
 	blockFixtureFreeGas = false
 	defer f2.c.s.Cleanup()
 	runBlocks(t, f2, rng, p, nTx/6)
+	// a third chain: minimum gas price above the base fee in the first block, proposer jailed
+	blockFixtureMinAbove = true
+	f3 := newBlockFixture(t, maxGas)
+	blockFixtureMinAbove = false
+	defer f3.c.s.Cleanup()
+	runBlocks(t, f3, rng, p, nTx/12)
 }
 
 func runBlocks(t *testing.T, f *blockFixture, rng *hx.Rng, p *hx.Proto, nTx int) {
@@ -220,6 +238,10 @@ func runBlocks(t *testing.T, f *blockFixture, rng *hx.Rng, p *hx.Proto, nTx int)
 		// block header line: base fee, max gas, min gas price mantissa, and the real balances / sequences
 		var sb strings.Builder
 		fmt.Fprintf(&sb, "begin %s %d %s", baseFee, f.maxGas, fmParams.MinGasPrice.BigInt())
+		priceFloor := baseFee // what the generator prices around: the larger of the base fee and the global minimum gas price
+		if m := fmParams.MinGasPrice.TruncateInt().BigInt(); m.Cmp(priceFloor) > 0 {
+			priceFloor = m
+		}
 		for i, w := range ws {
 			fmt.Fprintf(&sb, " %d:%s:%d", i, c.balance(ctx, w.GetCosmosAddress()), c.seq(ctx, w.GetCosmosAddress()))
 			f.nonces[i] = c.seq(ctx, w.GetCosmosAddress())
@@ -251,7 +273,7 @@ func runBlocks(t *testing.T, f *blockFixture, rng *hx.Rng, p *hx.Proto, nTx int)
 				continue
 			}
 			scriptedTx := len(f.script) > 0
-			txs = append(txs, f.genTx(rng, baseFee, ws))
+			txs = append(txs, f.genTx(rng, priceFloor, ws))
 			if !scriptedTx && rng.Chance(1, 30) { // the same bytes twice in one block
 				r := txs[len(txs)-1]
 				r.kind, r.replay = "replay-same-block", true
